@@ -23,42 +23,29 @@ type RedirectFlags struct {
 }
 
 // readMessage parses and defragments a packet from a Transport. It returns
-// at most the bytes that have been reported by the packet
-func readMessage(in transport.Transport) (pt int, n int, msg []byte, err error) {
-	fragment := false
-	index := 0
-	buf := make([]byte, 4096)
-
+// at most the bytes that have been reported by the packet. Packet boundaries
+// are taken from the packet headers only: pending holds the bytes that were
+// read from the transport but not consumed yet, so a packet may arrive in any
+// number of reads and one read may carry several packets.
+func readMessage(in transport.Transport, pending *[]byte) (pt int, n int, msg []byte, err error) {
 	for {
+		if len(*pending) >= 8 {
+			pt, sz, msg, err := readHeader(*pending)
+			if err == nil {
+				*pending = append([]byte(nil), (*pending)[sz:]...)
+				return int(pt), int(sz), msg, nil
+			}
+			// a size smaller than the header can never be completed
+			if sz < 8 {
+				return 0, 0, []byte{0, 0}, err
+			}
+		}
+
 		size, pkt, err := in.ReadPacket()
 		if err != nil {
 			return 0, 0, []byte{0, 0}, err
 		}
-
-		// check for fragments
-		var pt uint16
-		var sz uint32
-		var msg []byte
-
-		if !fragment {
-			pt, sz, msg, err = readHeader(pkt[:size])
-			if err != nil {
-				fragment = true
-				index = copy(buf, pkt[:size])
-				continue
-			}
-			index = 0
-		} else {
-			fragment = false
-			pt, sz, msg, err = readHeader(append(buf[:index], pkt[:size]...))
-			// header is corrupted even after defragmenting
-			if err != nil {
-				return 0, 0, []byte{0, 0}, err
-			}
-		}
-		if !fragment {
-			return int(pt), int(sz), msg, nil
-		}
+		*pending = append(*pending, pkt[:size]...)
 	}
 }
 
@@ -85,7 +72,10 @@ func readHeader(data []byte) (packetType uint16, size uint32, packet []byte, err
 	binary.Read(r, binary.LittleEndian, &packetType)
 	r.Seek(4, io.SeekStart)
 	binary.Read(r, binary.LittleEndian, &size)
-	if len(data) < int(size) {
+	if size < 8 {
+		return packetType, size, nil, errors.New("packet size smaller than header")
+	}
+	if uint64(len(data)) < uint64(size) {
 		return packetType, size, data[8:], errors.New("data incomplete, fragment received")
 	}
 	return packetType, size, data[8:size], nil
